@@ -4,9 +4,14 @@
 //! ends its stream with the head), a ping-host request, a source address the rules deny, clients
 //! whose ClientHello random the rules deny (about every second one: the rule is a masked prefix on
 //! the first bit), a client that completes the handshake and says nothing, and a garbage datagram.
+//! Every kind of visit is made with ClientHellos of every size class of EndpointQuic.tla (HelloSizes):
+//! the first flight is one Initial packet (the stock quiche hello), two, or three (the hello is
+//! inflated with a long ALPN list, standing in for post-quantum key shares / padding; the number of
+//! datagrams is measured, not assumed), the multi-packet ones in order or with the tail first.
 //! The hook events of the real code (QuicEstablished, RulesEval, H3Request, Gauge) and the CLIENT's
-//! view of each connection (the random of its own ClientHello, whether anything was answered) are
-//! written as one ndjson trace, validated by TLC against EndpointQuic.tla (EndpointQuicTrace.tla).
+//! view of each connection (the random of its own ClientHello and the number of Initial datagrams
+//! it took, whether anything was answered) are written as one ndjson trace, validated by TLC
+//! against EndpointQuic.tla (EndpointQuicTrace.tla).
 
 #[path = "../h3client.rs"]
 mod h3client;
@@ -28,18 +33,42 @@ use ttv::*;
 const KEEP: &[&str] = &["QuicEstablished", "RulesEval", "H3Request", "Gauge"];
 const AUTH: &[u8] = b"Basic YWxpY2U6UzNjcmV0QWxpY2VQdw==";
 
+/// How the client's ClientHello is made: `fillers` extra ALPN entries of 200 octets after "h3" (0 = the stock hello),
+/// and whether the datagrams of the first flight leave in reverse order
+#[derive(Clone, Copy, Debug, Default)]
+struct HelloShape {
+    fillers: usize,
+    reversed: bool,
+}
+
+/// the size classes: stock hello (1 Initial packet), about 1.3 kB (2), about 2.9 kB (3); thorough: and about 6.3 kB
+fn hello_fillers() -> Vec<usize> {
+    if tier_thorough() { vec![0, 5, 13, 30] } else { vec![0, 5, 13] }
+}
+
 #[derive(Default, Debug)]
 struct ClientView {
+    attempted: bool,
     established: bool,
+    /// Initial datagrams the ClientHello of the (completed) handshake took, as sent
+    hello_pkts: usize,
     random: String,
     responded: bool,
     status: u16,
     note: String,
 }
 
-fn visit(server: SocketAddr, src: IpAddr, sni: &str, request: Option<(&str, &str, bool)>, quiet: Duration) -> ClientView {
-    let mut v = ClientView::default();
-    let mut c = match H3Conn::connect(server, &ClientOpts { src_ip: src, sni: Some(sni), handshake_budget: Duration::from_secs(6), ..Default::default() }) {
+fn visit(server: SocketAddr, src: IpAddr, sni: &str, request: Option<(&str, &str, bool)>, quiet: Duration, shape: HelloShape) -> ClientView {
+    let mut v = ClientView { attempted: true, hello_pkts: 1, ..Default::default() };
+    let filler: Vec<Vec<u8>> = (0..shape.fillers).map(|i| {
+        let mut p = vec![b'x'; 200];
+        p[0] = b'a' + (i % 26) as u8;
+        p[1] = b'a' + (i / 26) as u8;
+        p
+    }).collect();
+    let mut alpn: Vec<&[u8]> = quiche::h3::APPLICATION_PROTOCOL.to_vec();
+    alpn.extend(filler.iter().map(Vec::as_slice));
+    let mut c = match H3Conn::connect(server, &ClientOpts { src_ip: src, sni: Some(sni), alpn: &alpn, handshake_budget: Duration::from_secs(6), reverse_handshake_flights: shape.reversed, ..Default::default() }) {
         Ok(c) => c,
         Err(e) => {
             v.note = format!("handshake: {:?}", e);
@@ -47,6 +76,7 @@ fn visit(server: SocketAddr, src: IpAddr, sni: &str, request: Option<(&str, &str
         }
     };
     v.established = true;
+    v.hello_pkts = c.client_hello_datagrams().max(1);
     v.random = hex(&c.client_random());
     if let Some((method, target, with_auth)) = request {
         let mut extra: Vec<(&str, &[u8])> = vec![("user-agent", b"verif-harness")];
@@ -108,7 +138,7 @@ fn main() {
     });
     const DENY_BELOW: u8 = 128;
 
-    for (rules_on, dual) in [(true, false), (false, false), (true, true)] {
+    for (cfg_idx, (rules_on, dual)) in [(true, false), (false, false), (true, true)].into_iter().enumerate() {
         let rules = if rules_on {
             Some(RulesConfig { rule: vec![
                 Rule { cidr: Some("127.0.0.64/26".into()), client_random_prefix: None, action: RuleAction::Deny },
@@ -131,28 +161,34 @@ fn main() {
         verif::emit("Config", format_args!("\"deny_rules\":{},\"dual\":{},\"deny_ips\":[\"127.0.0.70\"],\"deny_below\":{},\"canon\":{}", rules_on, dual, DENY_BELOW,
             if dual { "{\"::ffff:127.0.0.1\":\"127.0.0.1\",\"::ffff:127.0.0.70\":\"127.0.0.70\"}" } else { "{\"127.0.0.1\":\"127.0.0.1\",\"127.0.0.70\":\"127.0.0.70\"}" }));
         let kinds = vec!["tunnel-h3", "tunnel-h3", "tunnel-h3-refused", "tunnel-h3-noauth", "get-h3", "ping-h3", "denied-source", "silent", "garbage"];
-        let mut order: Vec<&str> = vec![];
-        for _ in 0..rounds {
-            let mut k = kinds.clone();
+        // every kind of visit meets every ClientHello size class once in hello_fillers().len() rounds; the multi-packet
+        // hellos alternate between leaving in order and tail first
+        let fillers = hello_fillers();
+        let mut order: Vec<(&str, HelloShape)> = vec![];
+        for r in 0..rounds {
+            let mut k: Vec<(&str, HelloShape)> = kinds.iter().enumerate().map(|(i, kind)| {
+                let cls = (i + r) % fillers.len();
+                (*kind, HelloShape { fillers: fillers[cls], reversed: cls > 0 && (i + r + cfg_idx) % 2 == 1 })
+            }).collect();
             for i in (1..k.len()).rev() {
                 k.swap(i, rng.gen_range(0..=i));
             }
             order.extend(k);
         }
         let mut all_lines: Vec<String> = vec![];
-        for kind in order {
+        for (kind, shape) in order {
             rep.eval();
             let target = format!("127.0.0.1:{}", dest_port);
             let me: IpAddr = "127.0.0.1".parse().unwrap();
             let quiet = Duration::from_millis(700);
             let (view, must_respond) = match kind {
-                "tunnel-h3" => (visit(ep.addr, me, "localhost", Some(("CONNECT", &target, true)), quiet), true),
-                "tunnel-h3-refused" => (visit(ep.addr, me, "localhost", Some(("CONNECT", "127.0.0.1:1", true)), quiet), true),
-                "tunnel-h3-noauth" => (visit(ep.addr, me, "localhost", Some(("CONNECT", &target, false)), quiet), true),
-                "get-h3" => (visit(ep.addr, me, "localhost", Some(("GET", "http://_check/", true)), quiet), true),
-                "ping-h3" => (visit(ep.addr, me, "ping.localhost", Some(("GET", "https://ping.localhost/", false)), quiet), true),
-                "denied-source" => (visit(ep.addr, "127.0.0.70".parse().unwrap(), "localhost", Some(("CONNECT", &target, true)), quiet), true),
-                "silent" => (visit(ep.addr, me, "localhost", None, quiet), false),
+                "tunnel-h3" => (visit(ep.addr, me, "localhost", Some(("CONNECT", &target, true)), quiet, shape), true),
+                "tunnel-h3-refused" => (visit(ep.addr, me, "localhost", Some(("CONNECT", "127.0.0.1:1", true)), quiet, shape), true),
+                "tunnel-h3-noauth" => (visit(ep.addr, me, "localhost", Some(("CONNECT", &target, false)), quiet, shape), true),
+                "get-h3" => (visit(ep.addr, me, "localhost", Some(("GET", "http://_check/", true)), quiet, shape), true),
+                "ping-h3" => (visit(ep.addr, me, "ping.localhost", Some(("GET", "https://ping.localhost/", false)), quiet, shape), true),
+                "denied-source" => (visit(ep.addr, "127.0.0.70".parse().unwrap(), "localhost", Some(("CONNECT", &target, true)), quiet, shape), true),
+                "silent" => (visit(ep.addr, me, "localhost", None, quiet, shape), false),
                 _ => {
                     let s = std::net::UdpSocket::bind("127.0.0.1:0").unwrap();
                     let junk: Vec<u8> = (0..200).map(|_| rng.gen()).collect();
@@ -197,8 +233,22 @@ fn main() {
                     }
                 }
             }
-            rep.nontrivial(format!("{}|{}|{}|{}", rules_on, dual, kind, if view.established && !view.random.is_empty() { u8::from_str_radix(&view.random[..2], 16).unwrap_or(0) < DENY_BELOW } else { false }));
+            rep.nontrivial(format!("{}|{}|{}|{}|{}|{}", rules_on, dual, kind, view.hello_pkts, shape.reversed, if view.established && !view.random.is_empty() { u8::from_str_radix(&view.random[..2], 16).unwrap_or(0) < DENY_BELOW } else { false }));
             rep.count(if view.responded { "answered" } else { "unanswered" }, 1);
+            // (the Config line of this endpoint comes with the events of its first visit)
+            let (config, lines): (Vec<String>, Vec<String>) = lines.into_iter().partition(|l| l.contains("\"ev\":\"Config\""));
+            all_lines.extend(config);
+            if view.attempted {
+                // the client's side of the handshake opens the connection's part of the trace
+                if view.established {
+                    rep.count(&format!("hello_pkts_{}", view.hello_pkts), 1);
+                    if shape.reversed && view.hello_pkts > 1 {
+                        rep.count("hello_tail_first", 1);
+                    }
+                }
+                all_lines.push(format!("{{\"ev\":\"QuicClientHello\",\"kind\":\"{}\",\"established\":{},\"random\":\"{}\",\"r0\":{},\"pkts\":{},\"alpn_fillers\":{},\"tail_first\":{}}}",
+                    kind, view.established, view.random, if view.established { u8::from_str_radix(&view.random[..2], 16).unwrap_or(0) } else { 0 }, view.hello_pkts, shape.fillers, shape.reversed));
+            }
             all_lines.extend(lines);
             all_lines.push(format!("{{\"ev\":\"ConnEnd\",\"kind\":\"{}\",\"established\":{},\"client_random\":\"{}\",\"responded\":{},\"status\":{},\"must_respond\":{}}}", kind, view.established, view.random, view.responded, view.status, must_respond));
         }
@@ -206,7 +256,7 @@ fn main() {
         for l in all_lines {
             let v: Value = serde_json::from_str(&l).unwrap_or(json!({}));
             let ev = v["ev"].as_str().unwrap_or("");
-            if KEEP.contains(&ev) || ev == "Config" || ev == "ConnEnd" {
+            if KEEP.contains(&ev) || ev == "Config" || ev == "ConnEnd" || ev == "QuicClientHello" {
                 writeln!(trace, "{}", l.replace("\"random\":null", "\"random\":\"null\"")).unwrap();
                 rep.count("events", 1);
             }
